@@ -45,7 +45,7 @@ def mech(case: dict[str, Any], which: str) -> str:
 def run(ctx: common.Ctx) -> None:
     quick = ctx.tier == "quick"
     scale = float(os.environ.get("VERIF_SCALE", "1"))
-    n_scen, max_points, fail_mode, par_every = (max(2, int(10 * scale)), 20, "singles", 5) if quick else (max(4, int(32 * scale)), 400, "all", 3)
+    n_scen, max_points, fail_mode, par_every = (max(2, int(10 * scale)), 20, "singles", 5) if quick else (max(4, int(16 * scale)), 120, "all", 3)
     ctx.rule = ("scenario = histgen project checked (pre-state), edited, re-run with the fault; fault = kill after store op k / before op 1 / "
                 "inside a filesystem write before os.replace, for every op of every process role (coordinator, each worker), or a "
                 "set of failing writes; follow-ups: warm == cold, second warm == cold, warm after a further edit == cold; non-trivial = "
